@@ -704,6 +704,43 @@ func Facts(repo string) (string, error) {
 	} else {
 		fmt.Fprintf(&sb, "/-- every pair (a,b) for which the real `jid.Unescape` rewrites `\\\\ab`, with the byte produced\n(all 65536 pairs evaluated) -/\ndef unescapeTable : Option (List (UInt8 × UInt8 × UInt8)) := some [\n  %s]\n", strings.Join(tl, ",\n  "))
 	}
+	// round E (review C16-3): the two tables hold at offset 0 of a one-escape string.  Probe them
+	// behind prefixes as well (ordinary bytes, after a previous escape, after an incomplete
+	// escape): the transform of prefix+item must be transform(prefix) followed by the table's
+	// answer for the item.  Count of items for which it is not, per prefix.
+	offs := func(t jid.Transformer, prefixes []string, items func(f func(item []byte))) string {
+		var el []string
+		for _, p := range prefixes {
+			pre, err := safe(func() ([]byte, error) { return t.Bytes([]byte(p)), nil })
+			if err != nil {
+				return "none"
+			}
+			n := 0
+			items(func(item []byte) {
+				alone, err1 := safe(func() ([]byte, error) { return t.Bytes(append([]byte(nil), item...)), nil })
+				both, err2 := safe(func() ([]byte, error) { return t.Bytes(append([]byte(p), item...)), nil })
+				if err1 != nil || err2 != nil || !bytes.Equal(both, append(append([]byte(nil), pre...), alone...)) {
+					n++
+				}
+			})
+			el = append(el, fmt.Sprint(n))
+		}
+		return "some [" + strings.Join(el, ", ") + "]"
+	}
+	fmt.Fprintf(&sb, "\n/-- for the prefixes \"x\", \"xx\", \" x\", \"a b:\": number of bytes c for which Escape(prefix+c) is not Escape(prefix) followed by Escape(c) -/\ndef escapeOffsets : Option (List Nat) := %s\n",
+		offs(jid.Escape, []string{"x", "xx", " x", "a b:"}, func(f func([]byte)) {
+			for c := 0; c < 256; c++ {
+				f([]byte{byte(c)})
+			}
+		}))
+	fmt.Fprintf(&sb, "\n/-- for the prefixes \"x\", \"xx\", \"\\20\", \"\\\", \"\\2\", \"a\\3a\": number of pairs (a,b) for which Unescape(prefix+\\ab) is not Unescape(prefix) followed by Unescape(\\ab) -/\ndef unescapeOffsets : Option (List Nat) := %s\n",
+		offs(jid.Unescape, []string{"x", "xx", `\20`, `\`, `\2`, `a\3a`}, func(f func([]byte)) {
+			for a := 0; a < 256; a++ {
+				for b := 0; b < 256; b++ {
+					f([]byte{'\\', byte(a), byte(b)})
+				}
+			}
+		}))
 	we, be, ae, me := stateWrites(jid.Escape)
 	wu, bu, au, mu := stateWrites(jid.Unescape)
 	fmt.Fprintf(&sb, "\n/-- 0 = a battery of calls through every interface left everything reachable from the package-level\nvalue unchanged; [jid.Escape, jid.Unescape].  Reachable plain data: %d and %d bytes. -/\n", me, mu)
